@@ -26,7 +26,7 @@ MANIFEST_ENTRY = {
             "byte-wise XOR with key[(p+i) mod 4]; involution; pointer = bytes processed; any chunking equals one call. The models are "
             "tied to the code by running the real pure-Python maskers and the NVX C (recompiled from /repo, called in place at "
             "alignments 0..15) on lengths 0..300 x offsets 0..3 x splits against the Lean spec; the default mask policy is observed "
-            "on real client/server protocol objects.",
+            "on real client/server protocol objects. The pointer / involution / chunking laws are also stated for each real masker (simple_laws, shifted1_laws, sse2_laws, sse2_chunking_irrelevant: the SSE2 masker with a different buffer alignment for every chunk).",
     "note": "Trusted: Lean kernel; the hand-written models mirror the code (checked only by the differential run); gcc/SSE2/cffi. "
             "Wire policy: default_mask_policy (Proofs/C01.lean: by default a client masks every frame with a fresh key from the key stream and a server none) and send_recv_roundtrip (masked frames are unmasked to the payload sent) are theorems on the engine model; that the real code draws one key per frame is observed on generated API sequences.",
 }
